@@ -29,6 +29,8 @@ ASSUMPTIONS = [
 
 
 def _load():
+    import faulthandler
+    faulthandler.enable()
     import contracts
     contracts.load_all()
 
@@ -46,33 +48,111 @@ def _task(t):
                     secs=0.0, stats={}, variant=variant, leftover=[], root=root)
 
 
-def explore(pool, tasks, pid, timeout_ms, k, mode, skipmap=None, budget=10):
+class Farm:
+    """Fork-per-task scheduler with a hard wall-clock limit per task.
+
+    z3 does not honour its timeout (nor interrupt()) in every phase; a task that exceeds its
+    deadline is killed and retried once, then reported as a hang (-> undecided, never a verdict).
+    """
+
+    def __init__(self, nproc=16, deadline=300):
+        self.nproc = nproc
+        self.deadline = deadline
+        self.running = []  # (proc, conn, fn, arg, start, tries, tag)
+        self.queue = []
+        self.ctx = mp.get_context("fork")
+
+    def submit(self, fn, arg, tag=None, tries=0):
+        self.queue.append((fn, arg, tries, tag))
+
+    @staticmethod
+    def _child(conn, fn, arg):
+        try:
+            r = fn(arg)
+        except BaseException as e:  # noqa
+            r = {"farm_error": "%s\n%s" % (e, traceback.format_exc())}
+        try:
+            conn.send(r)
+        except Exception as e:  # noqa
+            conn.send({"farm_error": "unpicklable result: %s" % e})
+        conn.close()
+
+    def _start(self):
+        while self.queue and len(self.running) < self.nproc:
+            fn, arg, tries, tag = self.queue.pop(0)
+            a, b = self.ctx.Pipe(duplex=False)
+            p = self.ctx.Process(target=Farm._child, args=(b, fn, arg), daemon=True)
+            p.start()
+            b.close()
+            self.running.append((p, a, fn, arg, time.time(), tries, tag))
+
+    def results(self):
+        """Yield (tag, arg, result) as tasks finish; new tasks may be submitted while iterating."""
+        while self.queue or self.running:
+            self._start()
+            progressed = False
+            for ent in list(self.running):
+                p, conn, fn, arg, start, tries, tag = ent
+                if conn.poll(0):
+                    try:
+                        r = conn.recv()
+                    except EOFError:
+                        r = {"farm_error": "worker died"}
+                    p.join(5)
+                    self.running.remove(ent)
+                    progressed = True
+                    yield tag, arg, r
+                elif not p.is_alive():
+                    self.running.remove(ent)
+                    progressed = True
+                    if tries < 1:
+                        self.submit(fn, arg, tag, tries + 1)
+                    else:
+                        yield tag, arg, {"farm_error": "worker died (exit code %s)" % p.exitcode}
+                elif time.time() - start > self.deadline:
+                    p.terminate()
+                    p.join(5)
+                    if p.is_alive():
+                        p.kill()
+                    self.running.remove(ent)
+                    progressed = True
+                    if tries < 1:
+                        self.submit(fn, arg, tag, tries + 1)
+                    else:
+                        yield tag, arg, {"farm_error": "task exceeded its %d s wall-clock limit twice (solver hang)" % self.deadline}
+            if not progressed:
+                time.sleep(0.02)
+
+
+def explore(farm, tasks, pid, timeout_ms, k, mode, skipmap=None, budget=10):
     """Run every function in `mode`; a function with many paths is split into disjoint subtrees of
     its decision tree that are handed to other workers (obligations are emitted once per path)."""
-    import queue
-    done = queue.Queue()
-    outstanding = 0
     merged = {}
 
     def submit(q, v, root, bud):
-        nonlocal outstanding
         key = (q, json.dumps(v, sort_keys=True))
         skip = list((skipmap or {}).get(key, ()))
-        outstanding += 1
-        pool.apply_async(_task, ((q, v, pid, timeout_ms, k, mode, root, bud, skip),), callback=done.put,
-                         error_callback=lambda e: done.put(dict(qual=q, variant=v, obligations=[], error="checker-error: %s" % e, stats={}, leftover=[], secs=0.0)))
+        farm.submit(_task, (q, v, pid, timeout_ms, k, mode, root, bud, skip), tag=("explore", mode))
 
     for q, v in tasks:
         submit(q, v, None, budget)
-    while outstanding:
-        r = done.get()
-        outstanding -= 1
+    dbg = os.environ.get("PYVC_DEBUG")
+    for tag, arg, r in farm.results():
+        if tag and tag[0] == "bounded":
+            merged.setdefault("__bounded__", []).append(r if "farm_error" not in r else dict(qual=arg[0], variant=arg[1], error=r["farm_error"], violations=[], cases=0, evaluated=0))
+            continue
+        q, v = arg[0], arg[1]
+        if "farm_error" in r:
+            kind = "solver-hang" if "wall-clock" in r["farm_error"] else "checker-error"
+            r = dict(qual=q, variant=v, obligations=[], error="%s: %s" % (kind, r["farm_error"]), stats={}, leftover=[], secs=0.0, root=arg[6])
         key = (r["qual"], json.dumps(r["variant"], sort_keys=True))
         m = merged.setdefault(key, dict(qual=r["qual"], variant=r["variant"], obligations=[], error=None, secs=0.0, stats={}))
         m["obligations"].extend(r["obligations"])
         m["secs"] += r.get("secs", 0.0)
         if r.get("error") and not m["error"]:
             m["error"] = r["error"]
+        if dbg:
+            print("done %s %s root=%s left=%d err=%s" % (mode, r["qual"].split("::")[1], r.get("root"), len(r.get("leftover") or []), r.get("error")), file=sys.stderr, flush=True)
         for root in r.get("leftover") or []:
             submit(r["qual"], r["variant"], root, 40)
     return merged
@@ -174,17 +254,18 @@ def run_property(pid, tier="quick", seed=0, extra=None):
     results = {}
     errors = []
     solver_secs = 0.0
-    with mp.Pool(16) as pool:
-        # bounded stand-in: the same contracts evaluated on the real code over small inputs
-        blimit = 30 if tier == "quick" else 400
-        btasks = [(q, v, [pid], blimit, seed) for q, v in tasks]
-        basync = pool.map_async(_bounded_task, btasks, chunksize=1)
-        # ground mode first (counter-models in milliseconds); an obligation refuted there is not
-        # re-solved with quantifiers
-        gres = explore(pool, tasks, pid, timeout_ms, kq if tier == "quick" else 5, "g")
-        skipmap = {key: {(o["name"], o["clause"]) for o in r["obligations"] if o["status"] == "refuted"} for key, r in gres.items()}
-        results = explore(pool, tasks, pid, timeout_ms, kq, "q", skipmap)
-        bres = basync.get()
+    farm = Farm(16, deadline=100 if tier == "quick" else 1200)
+    # bounded stand-in: the same contracts evaluated on the real code over small inputs
+    blimit = 30 if tier == "quick" else 400
+    for q, v in tasks:
+        farm.submit(_bounded_task, (q, v, [pid], blimit, seed), tag=("bounded",))
+    # ground mode first (counter-models in milliseconds); an obligation refuted there is not
+    # re-solved with quantifiers
+    gres = explore(farm, tasks, pid, timeout_ms, kq if tier == "quick" else 5, "g")
+    bres = gres.pop("__bounded__", [])
+    skipmap = {key: {(o["name"], o["clause"]) for o in r["obligations"] if o["status"] == "refuted"} for key, r in gres.items()}
+    results = explore(farm, tasks, pid, timeout_ms, kq, "q", skipmap)
+    bres += results.pop("__bounded__", [])
 
     obligations, discharged, undecided, refuted = [], [], [], []
     unsupported = []
